@@ -604,6 +604,35 @@ SLOTS.update({
     ('Assert', 'test@pars'): ('assert (a), b', [('body', 0), ('test', None)]),
     ('Expr', 'value@pars'): ('(a)', [('body', 0), ('value', None)]),
 })
+# sole with-items without `as` (a Tuple put there needs its own parentheses or it becomes several items), async forms of
+# every statement that has one
+AF = [('body', 0), ('body', 0)]
+SLOTS.update({
+    ('withitem', 'context_expr@sole'): ('with a:\n    pass', [('body', 0), ('items', 0), ('context_expr', None)]),
+    ('withitem', 'context_expr@two'): ('with a, b:\n    pass', [('body', 0), ('items', 1), ('context_expr', None)]),
+    ('withitem', 'context_expr@async-sole'): ('async def f():\n    async with a:\n        pass', AF + [('items', 0), ('context_expr', None)]),
+    ('withitem', 'context_expr@async-as'): ('async def f():\n    async with a as b:\n        pass', AF + [('items', 0), ('context_expr', None)]),
+    ('withitem', 'context_expr@async-pars'): ('async def f():\n    async with (a):\n        pass', AF + [('items', 0), ('context_expr', None)]),
+    ('withitem', 'context_expr@async-two'): ('async def f():\n    async with a, b:\n        pass', AF + [('items', 1), ('context_expr', None)]),
+    ('withitem', 'context_expr@async-pars-two'): ('async def f():\n    async with (a, b):\n        pass', AF + [('items', 0), ('context_expr', None)]),
+    ('AsyncFor', 'iter'): ('async def f():\n    async for i in a:\n        pass', AF + [('iter', None)]),
+    ('AsyncFor', 'iter@tuple'): ('async def f():\n    async for i in a, b:\n        pass', AF + [('iter', None)]),
+    ('comprehension', 'iter@async'): ('async def f():\n    x = [a async for b in c if d]', AF + [('value', None), ('generators', 0), ('iter', None)]),
+    ('comprehension', 'ifs@async'): ('async def f():\n    x = [a async for b in c if d if e]', AF + [('value', None), ('generators', 0), ('ifs', 1)]),
+    ('AsyncFunctionDef', 'decorator_list'): ('@a\nasync def f():\n    pass', [('body', 0), ('decorator_list', 0)]),
+    ('AsyncFunctionDef', 'returns'): ('async def f() -> a:\n    pass', [('body', 0), ('returns', None)]),
+    ('Await', 'value@stmt'): ('async def f():\n    await a', AF + [('value', None), ('value', None)]),
+    ('TryStar', 'handler-type'): ('try:\n    pass\nexcept* a:\n    pass', [('body', 0), ('handlers', 0), ('type', None)]),
+    ('Try', 'handler-type'): ('try:\n    pass\nexcept a:\n    pass', [('body', 0), ('handlers', 0), ('type', None)]),
+    ('Try', 'handler-type@as'): ('try:\n    pass\nexcept a as e:\n    pass', [('body', 0), ('handlers', 0), ('type', None)]),
+    ('TypeAlias', 'value'): ('type T = a', [('body', 0), ('value', None)]),
+    ('TypeVar', 'bound'): ('def f[T: a]():\n    pass', [('body', 0), ('type_params', 0), ('bound', None)]),
+    ('Delete', 'targets@sub'): ('del s[a]', [('body', 0), ('targets', 0), ('slice', None)]),
+    ('AugAssign', 'value@tuple'): ('x += a, b', V),
+    ('AnnAssign', 'value@tuple'): ('x: int = a, b', V),
+    ('Global', 'none'): ('x = a', V),
+})
+del SLOTS[('Global', 'none')]
 PC = [('body', 0), ('cases', 0), ('pattern', None)]
 PAT_SLOTS = {
     ('MatchAs', 'pattern'): ('match s:\n    case 1 as z:\n        pass', PC + [('pattern', None)]),
